@@ -747,8 +747,10 @@ class Interp:
                 and (a is not None and (a in ctx.int_atoms or a[0] in ('mod', 'bitand', 'idiv', 'shr', 'min', 'max'))):
             ks = list(range(int(lo) if lo.denominator == 1 else int(lo) + 1, int(hi) + 1))
             return_conds = [cmp_term('Eq', idx.term, Poly.const(k)) for k in ks]
-            probe = ctx.copy()
-            if all(probe.copy().assume(c) is not False for c in return_conds):
+            def pins(c, k):
+                p2 = ctx.copy()
+                return p2.assume(c) is not False and p2.rng(idx.term) == (Fr(k), Fr(k))
+            if all(pins(c, k) for c, k in zip(return_conds, ks)):
                 raise SplitRequest(return_conds)
         return idx
 
@@ -1426,6 +1428,9 @@ class Interp:
                 except SplitRequest as e:
                     self._split_ok = False
                     outs = []
+                    st.tags['case_splits'] = st.tags.get('case_splits', 0) + 1
+                    if st.tags['case_splits'] > 64:
+                        raise InterpError('more than 64 nested case splits on one path (a split that does not decide its own condition?)')
                     for c in e.conds:
                         s2 = st.fork()
                         if s2.ctx.assume(c) is False:
